@@ -36,7 +36,22 @@ pub enum Val {
 pub enum RefErr {
     Eof,
     Invalid,
+    /// a container of elements with an empty encoding announces more than 2^16 of them: a valid
+    /// encoding whose decoding takes time proportional to the count - outside the explored bound
+    Unbounded,
 }
+
+/// true when every value of the type encodes to zero bytes
+pub fn zero_size(ty: &Ty) -> bool {
+    match ty {
+        Ty::Unit => true,
+        Ty::Arr(t, n) => *n == 0 || zero_size(t),
+        Ty::Tuple(ts) => ts.iter().all(zero_size),
+        _ => false,
+    }
+}
+
+const ZST_COUNT_BOUND: u64 = 1 << 16;
 
 /// Documented encoded length of a size value: 1 + floor((bits-1)/7) bytes for values of at most
 /// 56 significant bits (1 byte for 0), 9 bytes otherwise.
@@ -187,6 +202,9 @@ pub fn decode_at(ty: &Ty, b: &[u8], pos: &mut usize) -> Result<Val, RefErr> {
         Ty::Vec(t) => {
             let (n, l) = vint_decode(&b[*pos..])?;
             *pos += l;
+            if zero_size(t) && n > ZST_COUNT_BOUND {
+                return Err(RefErr::Unbounded);
+            }
             let mut xs = vec![];
             for _ in 0..n {
                 // zero-sized elements cannot run out of input: an honest reference would loop
@@ -198,6 +216,9 @@ pub fn decode_at(ty: &Ty, b: &[u8], pos: &mut usize) -> Result<Val, RefErr> {
         Ty::Map(k, w) => {
             let (n, l) = vint_decode(&b[*pos..])?;
             *pos += l;
+            if zero_size(k) && zero_size(w) && n > ZST_COUNT_BOUND {
+                return Err(RefErr::Unbounded);
+            }
             let mut m = BTreeMap::new();
             for _ in 0..n {
                 let a = decode_at(k, b, pos)?;
@@ -209,6 +230,9 @@ pub fn decode_at(ty: &Ty, b: &[u8], pos: &mut usize) -> Result<Val, RefErr> {
         Ty::Set(t) => {
             let (n, l) = vint_decode(&b[*pos..])?;
             *pos += l;
+            if zero_size(t) && n > ZST_COUNT_BOUND {
+                return Err(RefErr::Unbounded);
+            }
             let mut s = BTreeSet::new();
             for _ in 0..n {
                 s.insert(decode_at(t, b, pos)?);
